@@ -13,6 +13,13 @@ Ltac step := cbn [sq exec exec0 run run1 call1 g_err g_st g_vars g_pos g_lim g_b
                   v_x v_z v_need v_n v_now v_sec v_num v_length v_size v_i v_o v_s v_v v_offset v_timestamp
                   offs tss used hwm img st_offs st_tss st_used st_hwm st_img fst snd].
 
+Ltac lstep := lazy beta iota zeta delta
+                 [sq exec exec0 run run1 call1 g_err g_st g_vars g_pos g_lim g_buf g_data g_dlen g_ws g_now
+                  set_st set_vars set_pos set_lim set_buf set_data set_dlen set_ws set_err setl phys
+                  look getv setv slot
+                  v_x v_z v_need v_n v_now v_sec v_num v_length v_size v_i v_o v_s v_v v_offset v_timestamp
+                  offs tss used hwm img st_offs st_tss st_used st_hwm st_img fst snd].
+
 (* ---------- setHead ---------- *)
 Lemma call_setHead σ x z (a b : Z) k :
   g_err σ = false -> v_x (g_vars σ) = Z.of_N x -> v_z (g_vars σ) = Z.of_N z -> x < 32 -> z < 32 ->
@@ -142,11 +149,22 @@ Definition interp_write (s : st) (x z : N) (d : list N) (now : N) : option (st *
 
 Lemma Zlt0_ofN (n : N) : (Z.of_N n <? 0)%Z = false. Proof. lia. Qed.
 
-Theorem interp_write_eq s x z d now :
-  x < 32 -> z < 32 -> lenN d + 4 + 4095 < 2^43 -> hwm s <= sector_limit -> now < 2^63 ->
-  interp_write s x z d now = Some (write_sector s x z d now).
+Lemma sq_app {S K} (f : S -> K -> K) a b k : sq f (a ++ b) k = sq f a (sq f b k).
+Proof. induction a as [|x a IH]; cbn [app sq]; [reflexivity|]. now rewrite IH. Qed.
+
+(* the last seven statements: Seek, length, data *)
+Definition ws_tail : list sem_stmt := skipn 4 C14gen.WriteSector.
+Definition ws_alloc : list sem_stmt :=
+  match nth_error C14gen.WriteSector 3 with Some (SIf _ _ _ el) => el | _ => [] end.
+
+Lemma tail_eq σ n : g_err σ = false -> v_n (g_vars σ) = Z.of_N n -> n < 2^31 -> lenN (g_data σ) < 2^32 ->
+  sq (fun s k => exec call1 s RFin k) ws_tail (fun _ => RStuck) σ =
+  RFin "return nil"
+    (mkist (st_img (g_st σ) (mkwr (4096 * n + 4) (g_data σ) :: mkwr (4096 * n) (be 4 (lenN (g_data σ))) :: img (g_st σ)))
+           (g_vars σ) (Some (4096 * n + 4 + flen (g_data σ))) (g_lim σ) (g_buf σ) (g_data σ) (g_dlen σ)
+           ((g_ws σ ++ [mkwr (4096 * n) (be 4 (lenN (g_data σ)))]) ++ [mkwr (4096 * n + 4) (g_data σ)])
+           false (g_now σ)).
 Proof.
-  intros Hx Hz Hd Hh Hnow. unfold sector_limit in Hh. change (2^23) with 8388608 in Hh.
-  unfold interp_write, run1, run, init, C14gen.WriteSector, write_sector. cbv zeta. rewrite flen_lenN in *.
-  step. rewrite !Z2N.id by lia. rewrite !N2Z.id.
-  unfold elem. rewrite tie_loc. step.
+  destruct σ as [[o t u h f] vs pos lim buf dat dlen ws err nw]. cbn [g_err g_vars g_data].
+  intros He Hn Hb Hd. subst err. unfold ws_tail, C14gen.WriteSector. cbn [skipn].
+  Time lstep.
